@@ -7,6 +7,7 @@ from .. import core, qeval, qgen
 from .. import gen as G
 
 LEVEL = "proof"
+READY = True
 CLAIM = {
     "text": "Lean theorems over ALL documents and ALL locations: for the parts a match carries (location of the matched node), test with the value found passes, "
             "replace yields the document that differs at exactly that location (every unrelated location keeps its value), remove yields the document without exactly "
